@@ -44,6 +44,8 @@ def first_mismatch(case):
     cmp = COMPARERS.get(case.get("engine"))
     for i, (a, b) in enumerate(zip(case["impl"], case["model"])):
         if cmp is not None:
+            if "amb=1" in a or "amb=1" in b:
+                return None
             if not cmp(a, b):
                 return i
             continue
